@@ -434,6 +434,7 @@ RULES = [
 def rule_inventory(ctx):
     from . import inventory
     inventory.check(ctx, ['mailbox-push', 'mailbox-pop', 'mailbox-close', 'file:mailbox-queue'])
+    inventory.check_narrowing(ctx)
 
 
 RULES.append(("C12.h", "state-mutation inventory: no new site that changes the content of the state this property rests on", rule_inventory))
